@@ -67,6 +67,7 @@ type streamCase struct {
 	CutA    int        `json:"cut_a"`    // MarshalTo stream truncated to CutA mod (len+1) bytes (-1: whole)
 	Reader  readerSpec `json:"reader"`
 	Lazy    bool       `json:"lazy,omitempty"`
+	Reuse   bool       `json:"reuse,omitempty"` // destinations are populated messages (copies of the last one read of that type)
 	Det     bool       `json:"det,omitempty"`
 	WFail   int        `json:"wfail"` // >= 0: also write to a writer that fails after this many bytes
 }
@@ -348,6 +349,17 @@ func readBack(label string, s []byte, c *streamCase, rs readerSpec, want []*mode
 			}
 		}
 		m := corpus.ByName(typ).New()
+		if c.Reuse {
+			// the usual read loop keeps one destination: hand UnmarshalFrom a message that still
+			// holds what an earlier frame of the same type left in it (a copy, so that the earlier
+			// result stays comparable)
+			for j := len(got) - 1; j >= 0; j-- {
+				if got[j].Descriptor().FullName() == m.Descriptor().FullName() {
+					m = proto.Clone(got[j].Interface()).ProtoReflect()
+					break
+				}
+			}
+		}
 		o := protodelim.UnmarshalOptions{UnmarshalOptions: proto.UnmarshalOptions{AllowPartial: true, NoLazyDecoding: !c.Lazy}, MaxSize: max}
 		err := o.UnmarshalFrom(r, m.Interface())
 		where := fmt.Sprintf("%s, read %d at offset %d of %d (MaxSize %d, reader %s)", label, i, pos, len(s), max, rs.String())
